@@ -20,8 +20,8 @@
 //! usage: c14 run <seed> <quick|thorough>
 //!        c14 replay <json>     ({"seed":…, "index":…} or {"files":[[module, source]…]})
 
-use roto::verif_hooks::c14::{Dump, NodeKind, take_dump};
-use roto::{Context, FileSpec, FileTree, RotoString, Runtime, SourceFile, library};
+use roto::verif_hooks::c14::{Dump, LirItem, NodeKind, take_dump, take_lir, typecheck_only};
+use roto::{Context, FileSpec, FileTree, RotoString, Runtime, SourceFile, Verdict, library};
 use rotov_harness::driver::Driver;
 use rotov_harness::{Prng, Report};
 use serde_json::{Value, json};
@@ -37,6 +37,12 @@ static LOG: Mutex<Vec<u64>> = Mutex::new(Vec::new());
 #[derive(Clone, Context)]
 struct C14Ctx {
     pub cx: u64,
+    /// the decimal digits of `CX`
+    pub cs: RotoString,
+}
+
+fn the_ctx() -> C14Ctx {
+    C14Ctx { cx: CX, cs: CX.to_string().as_str().into() }
 }
 
 type Rt = Runtime<roto::Ctx<C14Ctx>>;
@@ -51,6 +57,14 @@ fn runtime() -> Rt {
         /// decimal string to number
         fn num(s: RotoString) -> u64 {
             s.parse::<u64>().unwrap_or(u64::MAX)
+        }
+        /// identity (a value in argument position)
+        fn idu(x: u64) -> u64 {
+            x
+        }
+        /// `Some(x)` (a value inside a match examinee)
+        fn opt(x: u64) -> Option<u64> {
+            Some(x)
         }
     };
     Runtime::from_lib(lib)
@@ -96,6 +110,8 @@ struct Ref {
     guarded: bool,
     /// depth argument a constant passes to a function
     depth: u64,
+    /// how a typed constant is read (index into the read forms of its type, modulo)
+    form: u8,
 }
 
 #[derive(Clone, Debug)]
@@ -105,8 +121,83 @@ struct Item {
     n: usize,
     module: usize,
     uses_ctx: bool,
+    /// which use-site form the context read takes (index into `CTX_FORMS`)
+    ctx_form: u8,
+    /// constants: the type of the constant (index into `TY_NAMES`)
+    ty: u8,
+    /// constants of a compound type: `Some(before)` adds `const A<n>: T = K<n>;`
+    /// (a constant that is nothing but a copy of a constant), declared before / after it
+    alias: Option<bool>,
+    /// a term that builds a local compound value and clones / compares it (index into `LOCAL_NAMES`; 0 none)
+    local: u8,
+    /// constants: how the accessor `rd_K<n>` is written: bit 0 = as a `filtermap` (else `fn`),
+    /// bit 1 = at the start of pkg (else at its end), bit 2 = a `test t_K<n>` item reads the constant too
+    acc: u8,
     refs: Vec<Ref>,
 }
+
+/// types of constants: the initialiser computes a `u64` and wraps it
+const TY_NAMES: [&str; 6] = ["u64", "String", "String?", "record", "enum", "List[String]"];
+
+/// read forms per type: (name, template with `$P` for the path), all of type `u64`
+const READ_FORMS: [&[(&str, &str)]; 6] = [
+    &[("bare", "$P"), ("argument", "idu($P)")],
+    &[
+        ("argument", "num($P)"),
+        ("method", "num($P.to_uppercase())"),
+        ("fstring", "num(f\"{$P}\")"),
+        ("copy", "{ let c = $P; num(c) }"),
+    ],
+    &[
+        ("match", "(match $P { Some(s) => num(s), None => 0, })"),
+        ("copy-match", "{ let c = $P; (match c { Some(s) => num(s), None => 0, }) }"),
+    ],
+    &[
+        // (`K.n` directly is "Getting fields of constants not supported yet" in mir/lower.rs: a
+        // compiler limitation that belongs to C06, so a record constant is copied first)
+        ("copy-field", "{ let c = $P; c.n }"),
+        ("copy-field-argument", "{ let c = $P; num(c.s) }"),
+        ("copy-field-method", "{ let c = $P; num(c.s.to_uppercase()) }"),
+        ("copy-copy", "{ let c = $P; let e = c; num(e.s) + c.n - c.n }"),
+        ("eq", "{ let c = $P; (if c == $P { c.n } else { 0 }) }"),
+    ],
+    &[
+        ("match", "(match $P { A(s) => num(s), B => 0, })"),
+        ("copy-match", "{ let c = $P; (match c { A(s) => num(s), B => 0, }) }"),
+    ],
+    &[
+        ("get-match", "(match $P.get(0) { Some(s) => num(s), None => 0, })"),
+        ("copy-get", "{ let c = $P; (match c.get(0) { Some(s) => num(s), None => 0, }) }"),
+    ],
+];
+
+/// use-site forms of a context variable: (name, variable, expression of value `CX`)
+const CTX_FORMS: [(&str, &str, &str); 13] = [
+    ("bare", "cx", "cx"),
+    ("method", "cx", "num(cx.to_string())"),
+    ("argument", "cx", "idu(cx)"),
+    ("fstring", "cx", "num(f\"{cx}\")"),
+    ("str-method", "cs", "num(cs.to_uppercase())"),
+    ("str-argument", "cs", "num(cs)"),
+    ("str-fstring", "cs", "num(f\"{cs}\")"),
+    ("match-examinee", "cx", "(match opt(cx) { Some(v) => v, None => 0, })"),
+    ("block", "cx", "{ let t = { let u = cx; u }; t }"),
+    ("if-cond", "cx", "(if cx == 1000003 { 1000003 } else { 0 })"),
+    ("while", "cx", "{ let acc: u64 = 0; let i: u64 = 0; while i < 1 { acc = acc + cx; i = i + 1; } acc }"),
+    ("arith", "cx", "(cx + 0)"),
+    ("method-in-match", "cx", "(match Option.Some(cx.to_string()) { Some(s) => num(s), None => 0, })"),
+];
+
+/// local compound values (each term is worth 0): (name, template with `$R`/`$E` = record / enum type of the module)
+const LOCAL_NAMES: [(&str, &str); 7] = [
+    ("none", ""),
+    ("record-clone", "{ let r = $R { s: \"0\", n: 0 }; let c = r; num(c.s) + r.n }"),
+    ("record-eq", "{ let r = $R { s: \"0\", n: 0 }; let q = r; (if r == q { 0 } else { 1 }) }"),
+    ("option-clone", "{ let o: String? = Option.Some(\"0\"); let c = o; (match c { Some(s) => num(s), None => 1, }) + (match o { Some(s) => num(s), None => 1, }) }"),
+    ("enum-clone", "{ let e = $E.A(\"0\"); let c = e; (match c { A(s) => num(s), B => 1, }) + (match e { A(s) => num(s), B => 1, }) }"),
+    ("list-clone", "{ let l = [\"0\"]; let c = l; (match c.get(0) { Some(s) => num(s), None => 1, }) + (match l.get(0) { Some(s) => num(s), None => 1, }) }"),
+    ("option-eq", "{ let o: String? = Option.Some(\"0\"); let q = o; (if o == q { 0 } else { 1 }) }"),
+];
 
 #[derive(Clone, Debug, PartialEq)]
 enum Expect {
@@ -169,11 +260,113 @@ fn pick_root(p: &mut Prng, consts: &[usize], r: &[Vec<bool>]) -> usize {
 
 fn gen_ref(p: &mut Prng, to: usize, same_module: bool) -> Ref {
     let path = if same_module { if p.chance(1, 4) { 1 } else { 0 } } else { p.below(4) as u8 };
-    Ref { to, style: p.below(8) as u8, path, guarded: false, depth: p.below(3) }
+    Ref { to, style: p.below(8) as u8, path, guarded: false, depth: p.below(3), form: p.below(12) as u8 }
+}
+
+fn plain_item(is_const: bool, n: usize, module: usize) -> Item {
+    Item { is_const, n, module, uses_ctx: false, ctx_form: 0, ty: 0, alias: None, local: 0, acc: (n as u8 + module as u8) % 8, refs: vec![] }
+}
+
+fn plain_ref(to: usize) -> Ref {
+    Ref { to, style: 0, path: 0, guarded: false, depth: 1, form: 0 }
+}
+
+/// Class representatives, generated first on every run whatever the seed:
+/// every context use-site form at every distance from a constant, every type
+/// of constant with every read form behind 0–2 calls, every kind of local
+/// compound value in a function a constant needs.
+fn boundary_count() -> u64 {
+    let forms: usize = READ_FORMS.iter().map(|f| f.len()).sum();
+    (CTX_FORMS.len() * 5 + forms * 3 + (LOCAL_NAMES.len() - 1) * 2) as u64
+}
+
+fn boundary_graph(g: u64) -> (Vec<Item>, Expect) {
+    let g0 = g as usize;
+    let mut g = g as usize;
+    let m = |k: usize| (g0 + k) % 4;
+    // --- context forms × placement
+    if g < CTX_FORMS.len() * 5 {
+        let form = (g / 5) as u8;
+        let place = g % 5;
+        let mut items = match place {
+            // K0 itself
+            0 => vec![plain_item(true, 0, m(0))],
+            // K0 → f1
+            1 => vec![plain_item(true, 0, m(0)), plain_item(false, 1, m(1))],
+            // K0 → f1 → f2
+            2 => vec![plain_item(true, 0, m(0)), plain_item(false, 1, m(1)), plain_item(false, 2, m(2))],
+            // K0 → K1
+            3 => vec![plain_item(true, 0, m(0)), plain_item(true, 1, m(1))],
+            // f0 → K1, f0 reads the context: fine
+            _ => vec![plain_item(false, 0, m(0)), plain_item(true, 1, m(1))],
+        };
+        let n = items.len();
+        for i in 0..n - 1 {
+            items[i].refs.push(plain_ref(i + 1));
+        }
+        let at = if place == 4 { 0 } else { n - 1 };
+        items[at].uses_ctx = true;
+        items[at].ctx_form = form;
+        let expect = match place {
+            0 => Expect::Context("direct"),
+            1 | 2 => Expect::Context("via-function"),
+            3 => Expect::Context("via-constant"),
+            _ => Expect::Accept,
+        };
+        return (items, expect);
+    }
+    g -= CTX_FORMS.len() * 5;
+    // --- typed constants × read form × distance
+    let forms: usize = READ_FORMS.iter().map(|f| f.len()).sum();
+    if g < forms * 3 {
+        let shape = g % 3;
+        let mut k = g / 3;
+        let mut ty = 0;
+        while k >= READ_FORMS[ty].len() {
+            k -= READ_FORMS[ty].len();
+            ty += 1;
+        }
+        // the typed constant is the last item; its reader sits right before it
+        let mut items = match shape {
+            // K0 → K1
+            0 => vec![plain_item(true, 0, m(0)), plain_item(true, 1, m(1))],
+            // K0 → f1 → K2
+            1 => vec![plain_item(true, 0, m(0)), plain_item(false, 1, m(1)), plain_item(true, 2, m(2))],
+            // K0 → f1 → f2 → K3
+            _ => vec![
+                plain_item(true, 0, m(0)),
+                plain_item(false, 1, m(1)),
+                plain_item(false, 2, m(2)),
+                plain_item(true, 3, m(3)),
+            ],
+        };
+        let n = items.len();
+        for i in 0..n - 1 {
+            items[i].refs.push(plain_ref(i + 1));
+        }
+        items[n - 2].refs[0].form = k as u8;
+        items[n - 1].ty = ty as u8;
+        items[n - 1].alias = if ty == 0 { None } else if g % 2 == 0 { Some(true) } else { Some(false) };
+        if shape == 0 {
+            items[0].ty = ty as u8;
+        }
+        return (items, Expect::Accept);
+    }
+    g -= forms * 3;
+    // --- local compound values: in a function a constant calls / in the initialiser
+    let local = (1 + g / 2) as u8;
+    let mut items = vec![plain_item(true, 0, m(0)), plain_item(false, 1, m(1))];
+    items[0].refs.push(plain_ref(1));
+    items[if g % 2 == 0 { 1 } else { 0 }].local = local;
+    (items, Expect::Accept)
 }
 
 /// The graph of case `g` (shared by all its declaration-order variants).
 fn gen_graph(seed: u64, g: u64) -> (Vec<Item>, Expect) {
+    if g < boundary_count() {
+        return boundary_graph(g);
+    }
+    let g = g - boundary_count();
     let mut p = Prng::for_case(seed, g);
     let n = 2 + p.below(8) as usize;
     let mut numbers: Vec<usize> = (0..n).collect();
@@ -186,9 +379,19 @@ fn gen_graph(seed: u64, g: u64) -> (Vec<Item>, Expect) {
             n: numbers[i],
             module: if p.chance(1, 4) { 0 } else { p.below(4) as usize },
             uses_ctx: false,
+            ctx_form: p.below(CTX_FORMS.len() as u64) as u8,
+            ty: if p.chance(1, 2) { 0 } else { p.below(TY_NAMES.len() as u64) as u8 },
+            alias: match p.below(6) { 0 => Some(true), 1 => Some(false), _ => None },
+            local: if p.chance(1, 5) { 1 + p.below(LOCAL_NAMES.len() as u64 - 1) as u8 } else { 0 },
+            acc: if p.chance(1, 2) { 0 } else { p.below(8) as u8 },
             refs: vec![],
         })
         .collect();
+    for it in items.iter_mut() {
+        if !it.is_const || it.ty == 0 {
+            it.alias = None;
+        }
+    }
     if !items.iter().any(|i| i.is_const) {
         items[0].is_const = true;
     }
@@ -300,9 +503,14 @@ fn gen_case(seed: u64, index: u64) -> Case {
                 for r in it.refs.iter_mut() {
                     let g = r.guarded;
                     let d = r.depth;
+                    let f = r.form;
                     *r = gen_ref(&mut p, r.to, mods[r.to] == m);
                     r.guarded = g;
                     r.depth = d;
+                    if index / VARIANTS < boundary_count() {
+                        // a class representative keeps its read form in every variant
+                        r.form = f;
+                    }
                 }
             }
         }
@@ -338,10 +546,28 @@ struct Files {
     files: Vec<(usize, String)>,
 }
 
+fn read_form(t: &Item, form: u8) -> (&'static str, &'static str) {
+    let forms = READ_FORMS[t.ty as usize];
+    forms[form as usize % forms.len()]
+}
+
+fn wrap_const(ty: u8, m: usize, body: &str) -> (String, String) {
+    match ty {
+        0 => ("u64".into(), body.to_string()),
+        1 => ("String".into(), format!("{{ let v: u64 = {body}; v.to_string() }}")),
+        2 => ("String?".into(), format!("{{ let v: u64 = {body}; Option.Some(v.to_string()) }}")),
+        3 => (format!("R{m}"), format!("{{ let v: u64 = {body}; R{m} {{ s: v.to_string(), n: v }} }}")),
+        4 => (format!("E{m}"), format!("{{ let v: u64 = {body}; E{m}.A(v.to_string()) }}")),
+        _ => ("List[String]".into(), format!("{{ let v: u64 = {body}; [v.to_string()] }}")),
+    }
+}
+
 fn render(case: &Case) -> Files {
     let items = &case.items;
     let mut imports: Vec<BTreeSet<String>> = vec![BTreeSet::new(); 4];
     let mut bodies: Vec<Vec<String>> = vec![vec![]; 4];
+    let mut needs_record = [false; 4];
+    let mut needs_enum = [false; 4];
     for &i in &case.decl {
         let it = &items[i];
         let m = it.module;
@@ -352,7 +578,13 @@ fn render(case: &Case) -> Files {
             terms.push(format!("{}", 100 + it.n));
         }
         if it.uses_ctx {
-            terms.push("cx".into());
+            terms.push(CTX_FORMS[it.ctx_form as usize].2.into());
+        }
+        if it.local != 0 {
+            let t = LOCAL_NAMES[it.local as usize].1;
+            needs_record[m] |= t.contains("$R");
+            needs_enum[m] |= t.contains("$E");
+            terms.push(t.replace("$R", &format!("R{m}")).replace("$E", &format!("E{m}")));
         }
         for r in &it.refs {
             let t = &items[r.to];
@@ -376,15 +608,18 @@ fn render(case: &Case) -> Files {
                 }
                 _ => short,
             };
-            let val = if t.is_const {
-                path
+            let (val, simple) = if t.is_const {
+                let (fname, tpl) = read_form(t, r.form);
+                (tpl.replace("$P", &path), t.ty == 0 && fname == "bare")
             } else if it.is_const {
-                format!("{path}({})", r.depth)
+                (format!("{path}({})", r.depth), true)
             } else if r.guarded {
-                format!("{path}(d - 1)")
+                (format!("{path}(d - 1)"), true)
             } else {
-                format!("{path}(d)")
+                (format!("{path}(d)"), true)
             };
+            // a read that is not a plain path / call is bound first, then put in the shape
+            let (pre, val) = if simple { (String::new(), val) } else { (format!("let t0: u64 = {val}; "), "t0".to_string()) };
             let e = match r.style {
                 0 => val.clone(),
                 1 => format!("{{ let t = {val}; t }}"),
@@ -397,6 +632,7 @@ fn render(case: &Case) -> Files {
                 ),
                 _ => format!("({val} + 0)"),
             };
+            let e = if pre.is_empty() { e } else { format!("{{ {pre}{e} }}") };
             let e = match local_import {
                 Some(imp) => format!("{{ {imp} {e} }}"),
                 None => e,
@@ -406,26 +642,71 @@ fn render(case: &Case) -> Files {
         }
         let body = terms.join(" + ");
         if it.is_const {
-            bodies[m].push(format!("const {}: u64 = {};", it.name(), body));
+            needs_record[m] |= it.ty == 3;
+            needs_enum[m] |= it.ty == 4;
+            let (tyname, init) = wrap_const(it.ty, m, &body);
+            let decl = format!("const {}: {} = {};", it.name(), tyname, init);
+            let alias = format!("const A{}: {} = {};", it.n, tyname, it.name());
+            match it.alias {
+                Some(true) => {
+                    bodies[m].push(alias);
+                    bodies[m].push(decl);
+                }
+                Some(false) => {
+                    bodies[m].push(decl);
+                    bodies[m].push(alias);
+                }
+                None => bodies[m].push(decl),
+            }
         } else {
             bodies[m].push(format!("fn {}(d: u64) -> u64 {{ {} }}", it.name(), body));
         }
     }
-    // accessors for the constants live in pkg, after everything else
-    for it in items.iter().filter(|i| i.is_const) {
-        bodies[0].push(format!(
-            "fn rd_{}(d: u64) -> u64 {{ {}.{} }}",
-            it.name(),
-            ABS[it.module],
-            it.name()
-        ));
+    // accessors for the constants live in pkg, before or after everything else,
+    // as functions or filtermaps; some constants are also read by a test item
+    let mut oracle = Oracle { items, cval: vec![None; items.len()], fmemo: BTreeMap::new() };
+    let mut front: Vec<String> = vec![];
+    for (i, it) in items.iter().enumerate().filter(|(_, i)| i.is_const) {
+        let mut names = vec![it.name()];
+        if it.alias.is_some() {
+            names.push(format!("A{}", it.n));
+        }
+        let want = if matches!(case.expect, Expect::Accept) { oracle.constant(i) } else { 0 };
+        for name in names {
+            let path = format!("{}.{}", ABS[it.module], name);
+            let read = read_form(it, 0).1.replace("$P", &path);
+            let mut out = vec![];
+            if it.acc & 1 == 1 {
+                // (`accept pkg.…` does not parse — `accept` followed by a path starting with the
+                // keyword `pkg` — which belongs to C09; the read is bound first)
+                out.push(format!("filtermap rd_{name}(d: u64) {{ let v: u64 = {read}; accept v }}"));
+            } else {
+                out.push(format!("fn rd_{name}(d: u64) -> u64 {{ {read} }}"));
+            }
+            if it.acc & 4 == 4 {
+                out.push(format!("test t_{name} {{ if {read} != {want} {{ reject; }} accept }}"));
+            }
+            if it.acc & 2 == 2 {
+                front.append(&mut out);
+            } else {
+                bodies[0].append(&mut out);
+            }
+        }
     }
+    front.append(&mut bodies[0]);
+    bodies[0] = front;
     let files = (0..4)
         .map(|m| {
             let mut s = String::new();
             for i in &imports[m] {
                 s.push_str(i);
                 s.push('\n');
+            }
+            if needs_record[m] {
+                s.push_str(&format!("record R{m} {{ s: String, n: u64 }}\n"));
+            }
+            if needs_enum[m] {
+                s.push_str(&format!("enum E{m} {{ A(String), B }}\n"));
             }
             for b in &bodies[m] {
                 s.push_str(b);
@@ -435,6 +716,51 @@ fn render(case: &Case) -> Files {
         })
         .collect();
     Files { files }
+}
+
+/// The dependency structure the generated program is known to have: kind of
+/// every script item / context variable by full name, and who mentions whom.
+fn known_structure(case: &Case) -> (BTreeMap<String, char>, BTreeSet<(String, String)>) {
+    let items = &case.items;
+    let mut kinds = BTreeMap::new();
+    let mut edges = BTreeSet::new();
+    let full = |it: &Item| format!("{}.{}", ABS[it.module], it.name());
+    for it in items {
+        let from = full(it);
+        kinds.insert(from.clone(), if it.is_const { 'c' } else { 'f' });
+        for r in &it.refs {
+            edges.insert((from.clone(), full(&items[r.to])));
+        }
+        if it.uses_ctx {
+            let var = format!("{}", CTX_FORMS[it.ctx_form as usize].1);
+            kinds.insert(var.clone(), 'x');
+            edges.insert((from.clone(), var));
+        }
+        if it.is_const {
+            let rd = format!("pkg.rd_{}", it.name());
+            kinds.insert(rd.clone(), 'f');
+            edges.insert((rd, from.clone()));
+            if it.acc & 4 == 4 {
+                let t = format!("pkg.test#t_{}", it.name());
+                kinds.insert(t.clone(), 'f');
+                edges.insert((t, from.clone()));
+            }
+            if it.alias.is_some() {
+                let a = format!("{}.A{}", ABS[it.module], it.n);
+                kinds.insert(a.clone(), 'c');
+                edges.insert((a.clone(), from.clone()));
+                let rd = format!("pkg.rd_A{}", it.n);
+                kinds.insert(rd.clone(), 'f');
+                edges.insert((rd, a.clone()));
+                if it.acc & 4 == 4 {
+                    let t = format!("pkg.test#t_A{}", it.n);
+                    kinds.insert(t.clone(), 'f');
+                    edges.insert((t, a));
+                }
+            }
+        }
+    }
+    (kinds, edges)
 }
 
 fn tree(files: &[(usize, String)]) -> FileTree {
@@ -605,12 +931,14 @@ fn check_model(
                 "log:{}",
                 l.split(',')
                     .filter(|s| !s.is_empty())
-                    .map(|s| {
+                    .filter_map(|s| {
                         let i: usize = s.parse().unwrap_or(usize::MAX);
-                        d.nodes
-                            .get(i)
-                            .map(|n| last(&n.name).trim_start_matches('K').to_string())
-                            .unwrap_or("?".into())
+                        match d.nodes.get(i) {
+                            // an alias constant `A<n>` has no `emit` of its own
+                            Some(n) if last(&n.name).starts_with('A') => None,
+                            Some(n) => Some(last(&n.name).trim_start_matches('K').to_string()),
+                            None => Some("?".into()),
+                        }
                     })
                     .collect::<Vec<_>>()
                     .join(",")
@@ -638,6 +966,290 @@ fn describe(e: &Expect) -> String {
     }
 }
 
+/// The collected reference graph against the structure the program is known
+/// to have (`c14 tie`): every known edge must have been collected — whatever
+/// syntactic position the mention sits in — and nothing between known items
+/// may have been collected that is not there.
+fn check_edges(rep: &mut Report, drv: &mut Driver, case: &Case, d: &Dump, input: &Value) {
+    let (kinds, edges) = known_structure(case);
+    // hook numbering, plus known names the collected graph does not have at all
+    let mut names: Vec<String> = d.nodes.iter().map(|n| n.name.clone()).collect();
+    let mut kind_s: String = d
+        .nodes
+        .iter()
+        .map(|n| match n.kind {
+            NodeKind::Constant => 'c',
+            NodeKind::Function => 'f',
+            NodeKind::Context => 'x',
+            NodeKind::Other => 'o',
+        })
+        .collect();
+    // context variables are dumped under their full name: find them by last segment
+    let last = |s: &str| s.rsplit('.').next().unwrap_or(s).to_string();
+    let resolve = |names: &Vec<String>, k: &str, kind: char| -> Option<usize> {
+        if kind == 'x' {
+            names.iter().position(|n| last(n) == k && !n.starts_with("pkg."))
+        } else {
+            names.iter().position(|n| n == k)
+        }
+    };
+    for (k, c) in &kinds {
+        if resolve(&names, k, *c).is_none() {
+            names.push(k.clone());
+            kind_s.push(*c);
+        }
+    }
+    let id = |k: &str| resolve(&names, k, *kinds.get(k).unwrap_or(&'o')).unwrap();
+    let known_ids: BTreeSet<usize> = kinds.keys().map(|k| id(k)).collect();
+    for (k, c) in &kinds {
+        let i = id(k);
+        if i < d.nodes.len() && kind_s.as_bytes()[i] as char != *c {
+            rep.mismatch(
+                "a generated item is recorded under another kind than it was generated as (generator)",
+                json!({"case": input, "name": k, "generated": c.to_string(), "recorded": (kind_s.as_bytes()[i] as char).to_string()}),
+            );
+        }
+    }
+    let fmt = |m: &BTreeMap<usize, BTreeSet<usize>>| -> String {
+        if m.is_empty() {
+            "-".into()
+        } else {
+            m.iter()
+                .map(|(k, ts)| format!("{k}:{}", ts.iter().map(|t| t.to_string()).collect::<Vec<_>>().join(",")))
+                .collect::<Vec<_>>()
+                .join(";")
+        }
+    };
+    let mut t: BTreeMap<usize, BTreeSet<usize>> = BTreeMap::new();
+    for k in kinds.keys().filter(|k| kinds[*k] != 'x') {
+        t.entry(id(k)).or_default();
+    }
+    for (a, b) in &edges {
+        t.entry(id(a)).or_default().insert(id(b));
+    }
+    // the collected graph restricted to known items; a constant / context
+    // variable target that is not known stays in (and will show as extra)
+    let mut c: BTreeMap<usize, BTreeSet<usize>> = BTreeMap::new();
+    for (k, ts) in &d.edges {
+        if !known_ids.contains(k) {
+            if matches!(d.nodes[*k].kind, NodeKind::Constant | NodeKind::Function) && d.nodes[*k].name.starts_with("pkg") {
+                rep.mismatch("the collected graph has a script item the generator does not know (generator)", json!({"case": input, "name": d.nodes[*k].name}));
+            }
+            continue;
+        }
+        let e = c.entry(*k).or_default();
+        for x in ts {
+            if known_ids.contains(x) || matches!(d.nodes[*x].kind, NodeKind::Constant | NodeKind::Context) {
+                e.insert(*x);
+            }
+        }
+    }
+    let req = format!("c14 tie {kind_s} {} {}", fmt(&t), fmt(&c));
+    let ans = drv.ask(&req);
+    let field = |name: &str| -> String {
+        ans.split(' ').find_map(|w| w.strip_prefix(&format!("{name}="))).unwrap_or("?").to_string()
+    };
+    let pairs = |s: &str| -> Vec<(usize, usize)> {
+        s.split(',')
+            .filter_map(|w| {
+                let (a, b) = w.split_once('>')?;
+                Some((a.parse().ok()?, b.parse().ok()?))
+            })
+            .collect()
+    };
+    let missing = field("missing");
+    if missing == "?" || field("extra") == "?" {
+        rep.mismatch("driver: bad answer to c14 tie", json!({"request": req, "answer": ans}));
+        return;
+    }
+    // which use-site form does a missing edge belong to?
+    for (a, b) in pairs(&missing) {
+        let (from, to) = (names[a].clone(), names[b].clone());
+        let site = case
+            .items
+            .iter()
+            .find(|it| format!("{}.{}", ABS[it.module], it.name()) == from)
+            .map(|it| {
+                if kind_s.as_bytes()[b] as char == 'x' {
+                    format!("context:{}", CTX_FORMS[it.ctx_form as usize].0)
+                } else {
+                    it.refs
+                        .iter()
+                        .find(|r| {
+                            let t = &case.items[r.to];
+                            format!("{}.{}", ABS[t.module], t.name()) == to
+                        })
+                        .map(|r| {
+                            let t = &case.items[r.to];
+                            if t.is_const {
+                                format!("const:{}:{}:{}", TY_NAMES[t.ty as usize], read_form(t, r.form).0, STYLE_NAMES[r.style as usize])
+                            } else {
+                                format!("fn:{}", STYLE_NAMES[r.style as usize])
+                            }
+                        })
+                        .unwrap_or("?".into())
+                }
+            })
+            .unwrap_or_else(|| if from.contains(".A") { "const:alias".into() } else { "accessor".into() });
+        rep.violation(
+            "an item mentions a constant / function / context variable, but the reference is missing from the graph the compilation order and the context check are computed from",
+            &format!("edge-missing:{site}"),
+            json!({"case": input, "from": from, "to": to, "request": req}),
+        );
+    }
+    for (a, b) in pairs(&field("extra")) {
+        rep.mismatch(
+            "the collected reference graph has an edge between generated items that the generated program does not have",
+            json!({"case": input, "from": names[a], "to": names[b], "request": req}),
+        );
+    }
+    // what the property demands of this structure, by the model, against what was generated for
+    let out = field("out");
+    let want = match &case.expect {
+        Expect::Accept => "ord",
+        Expect::Cycle(_) => "rec",
+        Expect::Context(_) => "ctx",
+    };
+    if !out.starts_with(want) {
+        rep.mismatch(
+            "the model's verdict on the generated dependency structure differs from the generator's intent (generator)",
+            json!({"case": input, "model": out, "generated-as": describe(&case.expect), "request": req}),
+        );
+    }
+}
+
+/// the use-site form of the context read some constant reaches
+fn reached_ctx_form(items: &[Item]) -> &'static str {
+    let r = reach(items);
+    (0..items.len())
+        .find(|&i| items[i].uses_ctx && (items[i].is_const || (0..items.len()).any(|c| items[c].is_const && r[c][i])))
+        .map(|i| CTX_FORMS[items[i].ctx_form as usize].0)
+        .unwrap_or("?")
+}
+
+fn symbol_class(s: &str) -> &'static str {
+    if s.starts_with("::generated::clone_") {
+        "generated-clone"
+    } else if s.starts_with("::generated::drop_") {
+        "generated-drop"
+    } else if s.starts_with("::generated::eq_") {
+        "generated-eq"
+    } else {
+        "script-function"
+    }
+}
+
+/// The item list the code generator walked against the model's loop
+/// (`c14 lir`): the loop must complete — when an initialiser runs, every
+/// function it can reach has a body — and run the initialisers in the observed
+/// order.
+fn check_lir(rep: &mut Report, drv: &mut Driver, lir: &[LirItem], log: Option<&[u64]>, panicked: bool, input: &Value) {
+    let pos_of = |s: &str| lir.iter().position(|i| i.name == s);
+    let const_pos = |full: &str| lir.iter().position(|i| i.constant.as_ref().is_some_and(|c| c.0 == full));
+    let opt = |o: Option<usize>| o.map(|x| x.to_string()).unwrap_or("u".into());
+    let req = format!(
+        "c14 lir {}",
+        lir.iter()
+            .map(|i| {
+                let k = match &i.constant {
+                    Some((_, drop)) => format!("c{}", opt(pos_of(drop))),
+                    None => "f".into(),
+                };
+                format!(
+                    "{k}/{}/{}",
+                    i.funcs.iter().map(|f| opt(pos_of(f))).collect::<Vec<_>>().join(","),
+                    i.consts.iter().map(|c| opt(const_pos(c))).collect::<Vec<_>>().join(",")
+                )
+            })
+            .collect::<Vec<_>>()
+            .join(";")
+    );
+    if lir.is_empty() {
+        return;
+    }
+    let ans = drv.ask(&req);
+    // the closed form `lirReady` must agree with the loop
+    let (ans, ready) = match ans.rsplit_once(" ready=") {
+        Some((a, r)) => (a.to_string(), r.to_string()),
+        None => (ans.clone(), "?".into()),
+    };
+    if (ready == "1") != ans.starts_with("lir=ok:") || ready == "?" {
+        rep.mismatch(
+            "the closed form lirReady disagrees with the model's loop cgLir on a real item list",
+            json!({"case": input, "request": req, "loop": ans, "ready": ready}),
+        );
+    }
+    if let Some(order) = ans.strip_prefix("lir=ok:") {
+        if panicked {
+            rep.mismatch(
+                "codegen loop over the lowered items: the model completes but the compiler panicked",
+                json!({"case": input, "request": req}),
+            );
+        }
+        if let Some(log) = log {
+            let ids: Vec<String> = order
+                .split(',')
+                .filter(|s| !s.is_empty())
+                .filter_map(|s| {
+                    let i: usize = s.parse().ok()?;
+                    let full = &lir.get(i)?.constant.as_ref()?.0;
+                    let l = full.rsplit('.').next().unwrap_or(full);
+                    l.strip_prefix('K').map(|n| n.to_string())
+                })
+                .collect();
+            let real: Vec<String> = log.iter().map(|x| x.to_string()).collect();
+            if ids != real {
+                rep.mismatch(
+                    "codegen loop over the lowered items: the model's initialiser order differs from the observed log",
+                    json!({"case": input, "request": req, "model": ids, "impl": real}),
+                );
+            }
+        }
+    } else if let Some(k) = ans.strip_prefix("lir=panic@") {
+        let k: usize = k.parse().unwrap_or(0);
+        // the loop stops at item k: name what is not there yet
+        let mut what = "?".to_string();
+        let mut class = "?";
+        if let Some(item) = lir.get(k) {
+            let mut found = false;
+            for j in 0..=k {
+                for f in &lir[j].funcs {
+                    if pos_of(f).is_none_or(|p| p > k) && !found {
+                        what = format!("`{}` (item {j}) refers to `{f}`, which has no body when `{}` (item {k}) is evaluated", lir[j].name, item.name);
+                        class = symbol_class(f);
+                        found = true;
+                    }
+                }
+            }
+            if !found {
+                if let Some((_, drop)) = &item.constant {
+                    if pos_of(drop).is_none_or(|p| p > k) {
+                        what = format!("the drop function `{drop}` of constant `{}` (item {k}) has no body when the constant is evaluated", item.name);
+                        class = "constant-drop";
+                        found = true;
+                    }
+                }
+            }
+            if !found {
+                for c in &item.consts {
+                    if const_pos(c).is_none_or(|p| p >= k) && !found {
+                        what = format!("`{}` (item {k}) reads constant `{c}`, which has not been evaluated", item.name);
+                        class = "constant-not-evaluated";
+                        found = true;
+                    }
+                }
+            }
+        }
+        rep.violation(
+            "in the item list handed to the code generator, a constant is evaluated before something its initialiser can reach has been defined",
+            &format!("lir-order:{class}"),
+            json!({"case": input, "what": what, "items": lir.iter().map(|i| i.name.clone()).collect::<Vec<_>>(), "request": req}),
+        );
+    } else {
+        rep.mismatch("driver: bad answer to c14 lir", json!({"request": req, "answer": ans}));
+    }
+}
+
 fn run_case(rep: &mut Report, drv: &mut Driver, seed: u64, index: u64) {
     let case = gen_case(seed, index);
     let files = render(&case);
@@ -648,9 +1260,24 @@ fn run_case(rep: &mut Report, drv: &mut Driver, seed: u64, index: u64) {
     rep.hist("items", n.to_string());
     rep.hist("expect", describe(&case.expect));
     rep.hist("variant", (index % VARIANTS).to_string());
+    rep.hist("stream", if index / VARIANTS < boundary_count() { "class-representatives" } else { "random" });
     rep.hist("modules-used", items.iter().map(|i| i.module).collect::<BTreeSet<_>>().len().to_string());
     for it in items {
+        if it.uses_ctx {
+            rep.hist("context-form", CTX_FORMS[it.ctx_form as usize].0);
+        }
+        if it.local != 0 {
+            rep.hist("local-compound", format!("{} in {}", LOCAL_NAMES[it.local as usize].0, if it.is_const { "const" } else { "fn" }));
+        }
+        if it.is_const {
+            rep.hist("accessor", format!("{}{}{}", if it.acc & 1 == 1 { "filtermap" } else { "fn" }, if it.acc & 2 == 2 { " first" } else { " last" }, if it.acc & 4 == 4 { " +test" } else { "" }));
+            rep.hist("const-type", format!("{}{}", TY_NAMES[it.ty as usize], if it.alias.is_some() { " +alias" } else { "" }));
+        }
         for r in &it.refs {
+            let t = &items[r.to];
+            if t.is_const {
+                rep.hist("const-read-form", format!("{}:{}", TY_NAMES[t.ty as usize], read_form(t, r.form).0));
+            }
             rep.hist(
                 "ref-style",
                 format!(
@@ -672,53 +1299,51 @@ fn run_case(rep: &mut Report, drv: &mut Driver, seed: u64, index: u64) {
             );
         }
     }
-
-    LOG.lock().unwrap().clear();
-    let _ = take_dump();
     let rt = runtime();
+
+    // ---- phase 1: type check only; the collected graph against the known structure
+    let _ = take_dump();
+    let checked = catch_unwind(AssertUnwindSafe(|| typecheck_only(tree(&files.files), &rt)));
+    let dump1 = take_dump();
+    if let Some(d) = &dump1 {
+        check_edges(rep, drv, &case, d, &input);
+    } else if matches!(checked, Ok(Ok(()))) {
+        rep.mismatch("no dump recorded for a type-checked program", input.clone());
+    }
+    if let (Ok(Ok(())), Expect::Context(k)) = (&checked, &case.expect) {
+        // do not go on: the initialiser would be run without a context
+        let form = reached_ctx_form(items);
+        rep.violation(
+            "a constant that transitively reads a context variable passed the type checker (its initialiser would run at compile time without a context)",
+            &format!("context-accepted:{k}:{form}"),
+            json!({"case": input}),
+        );
+        if let Some(d) = &dump1 {
+            check_model(rep, drv, d, None, &input);
+        }
+        rep.class(format!("{}|typechecked|{}", describe(&case.expect), form));
+        return;
+    }
+
+    // ---- phase 2: the whole of compile
+    LOG.lock().unwrap().clear();
+    let _ = take_lir();
     let compiled = catch_unwind(AssertUnwindSafe(|| tree(&files.files).compile(&rt)));
     let log: Vec<u64> = LOG.lock().unwrap().clone();
     let dump = take_dump();
-
-    // ---- the hook's graph against the generated one (edge collection)
-    if let Some(d) = &dump {
-        let pos = |name: &str| d.nodes.iter().position(|x| x.name == name);
-        for it in items {
-            let from = format!("{}.{}", ABS[it.module], it.name());
-            for r in &it.refs {
-                let t = &items[r.to];
-                let to = format!("{}.{}", ABS[t.module], t.name());
-                let present = match (pos(&from), pos(&to)) {
-                    (Some(a), Some(b)) => d.edges.iter().any(|(k, ts)| *k == a && ts.contains(&b)),
-                    _ => false,
-                };
-                if !present {
-                    rep.violation(
-                        "a reference from one item to another is missing from the reference graph the compilation order is computed from",
-                        &format!(
-                            "edge-missing:{}:{}",
-                            if t.is_const { "const" } else { "fn" },
-                            STYLE_NAMES[r.style as usize]
-                        ),
-                        json!({"case": input, "from": from, "to": to}),
-                    );
-                }
-            }
-            if it.uses_ctx {
-                let present = pos(&from).is_some_and(|a| {
-                    d.edges.iter().any(|(k, ts)| {
-                        *k == a && ts.iter().any(|t| d.nodes[*t].kind == NodeKind::Context)
-                    })
-                });
-                if !present {
-                    rep.violation(
-                        "a use of a context variable is missing from the reference graph",
-                        "edge-missing:context",
-                        json!({"case": input, "from": from}),
-                    );
+    let lir = take_lir();
+    if let Some(l) = &lir {
+        let ok = matches!(compiled, Ok(Ok(_)));
+        check_lir(rep, drv, l, if ok { Some(&log) } else { None }, compiled.is_err(), &input);
+        for i in l {
+            for f in &i.funcs {
+                if f.starts_with("::generated::") {
+                    rep.hist("lir-helper-refs", format!("{} from {}", symbol_class(f), if i.constant.is_some() { "initialiser" } else if i.name.starts_with("::generated::") { "helper" } else { "function" }));
                 }
             }
         }
+    } else if matches!(compiled, Ok(Ok(_))) {
+        rep.mismatch("no item list recorded for a compiled program", input.clone());
     }
 
     let class;
@@ -821,25 +1446,37 @@ fn run_case(rep: &mut Report, drv: &mut Driver, seed: u64, index: u64) {
                     }
                     // afterwards: same values, nothing evaluated again
                     let mut o = Oracle { items, cval: vec![None; n], fmemo: BTreeMap::new() };
-                    let mut ctx = C14Ctx { cx: CX };
+                    let mut ctx = the_ctx();
                     for round in 0..2 {
                         for i in 0..n {
                             let it = &items[i];
                             if it.is_const {
                                 let want = o.constant(i);
-                                let name = format!("rd_{}", it.name());
-                                match pkg.get_function::<fn(u64) -> u64>(&name) {
-                                    Ok(f) => {
-                                        let got = f.call(&mut ctx, round);
-                                        if got != want {
-                                            rep.violation(
-                                                "a constant read after compile does not have the value its initialiser computes from its dependencies",
-                                                "value:constant",
-                                                json!({"case": input, "constant": it.name(), "got": got, "want": want}),
-                                            );
+                                let mut names = vec![format!("rd_{}", it.name())];
+                                if it.alias.is_some() {
+                                    names.push(format!("rd_A{}", it.n));
+                                }
+                                for name in names {
+                                    let got = if it.acc & 1 == 1 {
+                                        pkg.get_function::<fn(u64) -> Verdict<u64, ()>>(&name).map(|f| match f.call(&mut ctx, round) {
+                                            Verdict::Accept(v) => v,
+                                            Verdict::Reject(()) => u64::MAX,
+                                        })
+                                    } else {
+                                        pkg.get_function::<fn(u64) -> u64>(&name).map(|f| f.call(&mut ctx, round))
+                                    };
+                                    match got {
+                                        Ok(got) => {
+                                            if got != want {
+                                                rep.violation(
+                                                    "a constant read after compile does not have the value its initialiser computes from its dependencies",
+                                                    "value:constant",
+                                                    json!({"case": input, "constant": name, "got": got, "want": want}),
+                                                );
+                                            }
                                         }
+                                        Err(e) => rep.mismatch("accessor not found (harness)", json!({"case": input, "name": name, "error": format!("{e}")})),
                                     }
-                                    Err(e) => rep.mismatch("accessor not found (harness)", json!({"case": input, "name": name, "error": format!("{e}")})),
                                 }
                             } else {
                                 let fname = format!("{}.{}", ABS[it.module], it.name());
@@ -863,6 +1500,22 @@ fn run_case(rep: &mut Report, drv: &mut Driver, seed: u64, index: u64) {
                             }
                         }
                     }
+                    // the test items see the same values
+                    let tests: Vec<_> = pkg.get_tests().collect();
+                    let ntests = items.iter().filter(|i| i.is_const && i.acc & 4 == 4).map(|i| 1 + i.alias.is_some() as usize).sum::<usize>();
+                    if tests.len() != ntests {
+                        rep.mismatch("number of test items differs from the generated one (harness)", json!({"case": input, "got": tests.len(), "want": ntests}));
+                    }
+                    for t in &tests {
+                        if t.run(&mut ctx).is_err() {
+                            rep.violation(
+                                "a test item reading a constant after compile does not see the value its initialiser computes from its dependencies",
+                                "value:test",
+                                json!({"case": input, "test": t.name()}),
+                            );
+                        }
+                    }
+                    drop(tests);
                     let after: Vec<u64> = LOG.lock().unwrap().clone();
                     if after != log {
                         rep.violation(
@@ -887,8 +1540,14 @@ fn run_case(rep: &mut Report, drv: &mut Driver, seed: u64, index: u64) {
         let r = reach(items);
         (0..n).any(|i| !items[i].is_const && r[i][i])
     };
+    let compound = items.iter().any(|i| (i.is_const && i.ty != 0) || i.local != 0);
+    let ctxform = if matches!(case.expect, Expect::Context(_)) {
+        reached_ctx_form(items)
+    } else {
+        items.iter().find(|i| i.uses_ctx).map(|i| CTX_FORMS[i.ctx_form as usize].0).unwrap_or("-")
+    };
     rep.class(format!(
-        "{}|{}|c{}f{}e{}|fcycle={}|mods={}|v{}",
+        "{}|{}|c{}f{}e{}|fcycle={}|mods={}|v{}|compound={}|ctx={}",
         describe(&case.expect),
         class,
         nconst,
@@ -897,10 +1556,13 @@ fn run_case(rep: &mut Report, drv: &mut Driver, seed: u64, index: u64) {
         fcycle as u8,
         items.iter().map(|i| i.module).collect::<BTreeSet<_>>().len(),
         (index % VARIANTS).min(2),
+        compound as u8,
+        ctxform,
     ));
     if index % 97 == 0 {
         rep.sample(json!({"case": input, "outcome": class, "log": log,
-            "impl_order": dump.as_ref().map(|d| match &d.order { Ok(o) => json!(o.iter().map(|i| d.nodes[*i].name.clone()).collect::<Vec<_>>()), Err(e) => json!({"error": e}) })}));
+            "impl_order": dump.as_ref().map(|d| match &d.order { Ok(o) => json!(o.iter().map(|i| d.nodes[*i].name.clone()).collect::<Vec<_>>()), Err(e) => json!({"error": e}) }),
+            "lir_items": lir.as_ref().map(|l| l.iter().map(|i| i.name.clone()).collect::<Vec<_>>())}));
     }
 }
 
@@ -943,18 +1605,25 @@ fn replay_files(rep: &mut Report, drv: &mut Driver, v: &Value) {
         println!("order: {:?}", d.order.as_ref().map(|o| o.iter().map(|i| d.nodes[*i].name.clone()).collect::<Vec<_>>()));
         check_model(rep, drv, &d, if matches!(res, Ok(Ok(()))) { Some(&log) } else { None }, v);
     }
+    if let Some(l) = take_lir() {
+        println!("lir items: {:?}", l.iter().map(|i| i.name.clone()).collect::<Vec<_>>());
+        check_lir(rep, drv, &l, if matches!(res, Ok(Ok(()))) { Some(&log) } else { None }, res.is_err(), v);
+    }
     rep.evaluations += 1;
 }
 
 fn main() {
     let args: Vec<String> = std::env::args().collect();
-    std::panic::set_hook(Box::new(|_| {}));
+    if std::env::var("C14_SHOW_PANICS").is_err() {
+        std::panic::set_hook(Box::new(|_| {}));
+    }
     let mut rep = Report::default();
     match args.get(1).map(|s| s.as_str()) {
         Some("run") => {
             let seed: u64 = args.get(2).and_then(|s| s.parse().ok()).unwrap_or(1);
             let thorough = args.get(3).map(|s| s == "thorough").unwrap_or(false);
-            let graphs: u64 = if thorough { 10_000 } else { 500 };
+            // the class representatives first, then random graphs
+            let graphs: u64 = boundary_count() + if thorough { 10_000 } else { 1_500 };
             let seed_s = seed.to_string();
             use rotov_harness::worker::{Ended, run_batches};
             run_batches(
